@@ -191,35 +191,7 @@ def run_lemmas(res):
         res['witnesses'].append(crc_case(d, "witness"))
 
 
-def state_preimage(sv):
-    """3 bytes that drive the zero register to state sv (crc of 3 bytes b is b*x^24 mod G; solve by brute linear algebra)"""
-    # columns: effect of each input bit
-    cols = []
-    for i in range(24):
-        b = (1 << (23 - i)).to_bytes(3, "big")
-        cols.append(concrete.crc24q_ref(b))
-    # gaussian elimination over GF(2)
-    rows = [(cols[i], 1 << i) for i in range(24)]
-    x = 0
-    target = sv
-    basis = []
-    for v, tag in rows:
-        for bv_, bt in basis:
-            if v ^ bv_ < v:
-                v ^= bv_
-                tag ^= bt
-        if v:
-            basis.append((v, tag))
-            basis.sort(reverse=True)
-    for bv_, bt in basis:
-        if target ^ bv_ < target:
-            target ^= bv_
-            x ^= bt
-    out = 0
-    for i in range(24):
-        if x >> i & 1:
-            out |= 1 << (23 - i)
-    return out.to_bytes(3, "big")
+state_preimage = concrete.state_preimage
 
 
 def run_two(G, res):
